@@ -50,4 +50,24 @@ CLAIMS["C04"] = {
     "note": _COMMON_NOTE + "Runtime termination is sampled, not proved; F11 (extreme nesting depth) is a listed finding.",
     "technique": "Coq proof (pass bound, no-underflow) + watchdog exploration",
 }
+CLAIMS["C13"] = {
+    "text": "Proof (Coq): on a byte-level model of the whole lexer (lexer.rs incl. asm mode and directive expressions) — total on every byte string, lossless with stepwise bounds, exactly one Eof last, every other token non-empty and starting at a non-blank, leading whitespace blank, all boundaries character boundaries and all pieces valid UTF-8 for valid UTF-8 input; the AVX2 identifier scan equals the scalar scan for every input; the keyword perfect hash over the tables REGENERATED from lexer.rs on every run builds without collision and equals a case-insensitive linear search. The model lexer is the reference scanner: token boundaries and kinds are diffed against the real lexer on every case (seeds, mutations, soup, arbitrary bytes, length 1..200 x alignment 0..64 x 31 delimiter classes sweep), and both real identifier scans are driven through hooks and diffed against both models.",
+    "note": _COMMON_NOTE + "Hooks: verif_ident_end_generic / verif_ident_end_avx2. The byte classes and sub-lexers are hand-modelled (tied by the differential run); memory safety of the unsafe AVX2 block is not modelled.",
+    "technique": "Coq proof over executable model + extracted-model correspondence check",
+}
+CLAIMS["C02"] = {
+    "text": "Proof (Coq), partial: by reflection over all 183 generated token types, whenever the spacing rule leaves no space between two tokens the pair is glue-safe for the lexer, or the input already had no blank there, or it is one of 23 listed pairs that cannot occur in well-formed code (C02_spacing_separates); the rule touches counters only and the gap is a closed-form function of two types. The spacing model is diffed against the real rule on every case. The remaining steps (wrapper keeps comment breaks; locality of the sub-lexers) are decided by the oracle: the real output is re-scanned with the verified model lexer AND the real lexer and every token's kind and text is compared with the final token vector, on well-formed seeds/grammar programs under relayout, comment insertion, directive wrapping, CRLF and keyword-case variants.",
+    "note": _COMMON_NOTE + "H-W1 and lex_one_local are monitored by the re-scan oracle, not proved.",
+    "technique": "Coq proof by reflection over generated enums + re-scan oracle with the verified lexer",
+}
+CLAIMS["C06"] = {
+    "text": "Proof (Coq), partial: the spacing rule reads the original space count exactly on a characterised class of (left, right) type pairs and only up to min 1 — outside the class the spacing is independent of the input's spacing (C06_spacing_layout_free, C06_reads_orig_characterised); the literal-gap leak (F4) is proved to be real. The set of leading-whitespace reads in the code base is proved equal to the modelled set (generated inventory). That the parser and the wrapper do not consult the layout is decided by the metamorphic oracle fmt(x) = fmt(relayout(x)) on the real formatter.",
+    "note": _COMMON_NOTE + "H-P2/H-W2 validated by differential execution; F4 class excluded by the relayout generator and listed as a finding.",
+    "technique": "Coq proof by reflection + metamorphic oracle",
+}
+CLAIMS["C03"] = {
+    "text": "Proof (Coq), partial: each content normalisation and the spacing rule are proved to be fixpoints of themselves (spacing, keyword lower-casing, EofNewline, multi-line string re-indentation). Idempotence of the whole formatter additionally needs the wrapper's plan to be a function of the layout-free view; that is decided by the oracle fmt(fmt(x)) = fmt(x) (and a third pass in the thorough tier) on the real formatter over well-formed seeds, grammar programs and their variants. Known finding F6 (stale child-line cache after re-indenting a multi-line string) is reported as KNOWN-FINDING.",
+    "note": _COMMON_NOTE + "H-W2, H-W4, H-W5 validated by the oracle.",
+    "technique": "Coq fixpoint lemmas + idempotence oracle",
+}
 NOT_CLAIMED = {}
